@@ -8,5 +8,5 @@ for p in "$@"; do
     for q in C01 C02 C03 C04 C05 C06 C07 C08 C09 C10 C11 C12 C13 C14 C15 C16 C17 C18 C19 C20; do echo "$q /tmp/seed4/$p/$n/patch.diff" >> $jobs; done
   done
 done
-cat $jobs | xargs -P 8 -L 1 /verif/tools/run_patch.sh | grep -v "^\[0\] C.. /tmp/seed4/C../N" 
+cat $jobs | xargs -P 12 -L 1 /verif/tools/run_patch.sh | grep -v "^\[0\] C.. /tmp/seed4/C../N" 
 rm -f $jobs
